@@ -133,6 +133,38 @@ func (p c05) RunUnit(idx int, tier string, seed int64, focus map[string]string, 
 	}
 	old := runtime.GOMAXPROCS(cfg.Procs)
 	defer runtime.GOMAXPROCS(old)
+	// Cold start: the first queries a process ever runs on a schema are concurrent ones.
+	// Inputs are built afresh (new schema objects) and NOT collected or queried
+	// sequentially first, so that anything initialised lazily on first use is initialised
+	// under concurrency; results are not compared here (no targets are installed), the
+	// race detector and the runtime's own map checks are the oracle.
+	if wsCold, err := cfg.Recipe.Make(); err == nil {
+		wsCold.CallOut = ws.CallOut
+		envCold := wsCold.Build(false)
+		envCold.FreshPD = true
+		var cw sync.WaitGroup
+		coldSeeds := make([]int64, cfg.Goroutines)
+		for g := range coldSeeds {
+			coldSeeds[g] = rnd.Int63()
+		}
+		for g := 0; g < cfg.Goroutines; g++ {
+			cw.Add(1)
+			go func(g int) {
+				defer cw.Done()
+				r := rand.New(rand.NewSource(coldSeeds[g]))
+				for i := 0; i < 12; i++ {
+					qi := r.Intn(len(qs))
+					if len(heavy) > 0 && r.Intn(2) == 0 {
+						qi = heavy[r.Intn(len(heavy))]
+					}
+					envCold.Run(qs[qi])
+				}
+			}(g)
+		}
+		cw.Wait()
+		rep.Eval(int64(cfg.Goroutines * 12))
+		rep.Count("cold_start_operations", int64(cfg.Goroutines*12))
+	}
 	start := time.Now()
 	var wg sync.WaitGroup
 	recs := make([][]opRec, cfg.Goroutines)
